@@ -292,13 +292,13 @@ func storage(v reflect.Value, path string, seen map[unsafe.Pointer]bool, fn func
 		for i := 0; i < v.Len(); i++ {
 			e := v.Index(i)
 			if e.Type().Size() > 0 {
-				fn(unsafe.Pointer(e.UnsafeAddr()), fmt.Sprintf("%s[%d]", path, i))
+				fn(unsafe.Pointer(e.UnsafeAddr()), sub(path, "[%d]", i))
 			}
-			storage(e, fmt.Sprintf("%s[%d]", path, i), seen, fn)
+			storage(e, sub(path, "[%d]", i), seen, fn)
 		}
 	case reflect.Array:
 		for i := 0; i < v.Len(); i++ {
-			storage(v.Index(i), fmt.Sprintf("%s[%d]", path, i), seen, fn)
+			storage(v.Index(i), sub(path, "[%d]", i), seen, fn)
 		}
 	case reflect.Struct:
 		if !v.CanAddr() {
@@ -307,6 +307,10 @@ func storage(v reflect.Value, path string, seen map[unsafe.Pointer]bool, fn func
 			v = c
 		}
 		for i := 0; i < v.NumField(); i++ {
+			if path == noPath {
+				storage(field(v, i), noPath, seen, fn)
+				continue
+			}
 			storage(field(v, i), path+"."+v.Type().Field(i).Name, seen, fn)
 		}
 	case reflect.Map:
@@ -316,7 +320,7 @@ func storage(v reflect.Value, path string, seen map[unsafe.Pointer]bool, fn func
 		fn(v.UnsafePointer(), path)
 		it := v.MapRange()
 		for it.Next() {
-			storage(it.Value(), fmt.Sprintf("%s[%v]", path, it.Key()), seen, fn)
+			storage(it.Value(), sub(path, "[%v]", it.Key()), seen, fn)
 		}
 	case reflect.Interface:
 		if !v.IsNil() {
@@ -325,8 +329,26 @@ func storage(v reflect.Value, path string, seen map[unsafe.Pointer]bool, fn func
 	}
 }
 
+// noPath as the path of a walk: the walk does not build paths (they are only needed to report a shared piece).
+const noPath = "\x00"
+
+func sub(path, format string, a interface{}) string {
+	if path == noPath {
+		return noPath
+	}
+	return path + fmt.Sprintf(format, a)
+}
+
 // SharedPointers returns the paths (in b) of storage reachable from both a and b.
 func SharedPointers(a, b interface{}) []string {
+	// first without paths (the common case: nothing is shared), the walk with paths only to report
+	mine := map[unsafe.Pointer]bool{}
+	storage(reflect.ValueOf(a), noPath, map[unsafe.Pointer]bool{}, func(p unsafe.Pointer, _ string) { mine[p] = true })
+	shared := false
+	storage(reflect.ValueOf(b), noPath, map[unsafe.Pointer]bool{}, func(p unsafe.Pointer, _ string) { shared = shared || mine[p] })
+	if !shared {
+		return nil
+	}
 	owned := map[unsafe.Pointer]string{}
 	storage(reflect.ValueOf(a), "", map[unsafe.Pointer]bool{}, func(p unsafe.Pointer, path string) {
 		if _, ok := owned[p]; !ok {
